@@ -22,6 +22,7 @@ EXPLANATION = (
 # handler operation -> operation that must be presented to the access-control choke point (property C03 / KMIP policy model:
 # cryptographic use of an object is read access, i.e. governed by GET)
 T_ACCESS_OP = {'ENCRYPT': 'GET', 'DECRYPT': 'GET', 'SIGN': 'GET', 'SIGNATURE_VERIFY': 'GET', 'MAC': 'GET', 'DERIVE_KEY': 'GET'}
+SESSION_COUNTED_COLLECTIONS = ('new', 'dirty', 'deleted')     # only ever as len(session.<x>)
 SESSION_METHODS_OK = {'add', 'commit', 'query'}
 
 
@@ -383,6 +384,9 @@ def run(ctx):
                         query_sites.append((name, fn, p._parent))
                     else:
                         ctx.ok('C03.R1', site, 'session.%s' % meth)
+                elif (isinstance(p, ast.Attribute) and p.attr in SESSION_COUNTED_COLLECTIONS and isinstance(p._parent, ast.Call) and isinstance(p._parent.func, ast.Name)
+                      and p._parent.func.id == 'len' and p._parent.args == [p]):
+                    ctx.ok('C03.R1', site, 'len(session.%s): the size of the pending unit of work, no object leaves the session' % p.attr)
                 else:
                     ctx.fail('C03.R1', 'KmipEngine.%s|_data_session-escapes' % name, site,
                              'the data session is used other than by a direct method call (alias or argument): %s' % short(p))
